@@ -126,6 +126,7 @@ def content(rng, i):
     # one message larger than a megabyte (9 and more full-size body frames; also in 64 KiB frames, one of which
     # ends exactly on the 1 MiB mark)
     big = i % 16 == 5
+    has_big = big
     if big:
         fullsize = False
     per = {}
@@ -187,6 +188,9 @@ def content(rng, i):
         cfg["read_cycle"] = [rng.choice([1, 2, 3, 7, 8, 9, 50, 4096, 0]) for _ in range(rng.randrange(1, 6))]
         if all(x == 0 for x in cfg["read_cycle"]):
             cfg["read_cycle"].append(5)
+        if has_big:
+            # megabytes are not read a few bytes at a time (millions of reads: the session would only be slow)
+            cfg["read_cycle"] = [x if x == 0 else max(x * 1000, 4096) for x in cfg["read_cycle"]]
     if fullsize:
         cfg["tune"] = [0, 4096, 0]
     return {"kind": "content", "cfg": cfg, "steps": steps}
